@@ -12,6 +12,7 @@ built only from None, bool, int, float, Decimal, str, list, tuple, dict, slice, 
 FUNCTIONS value, or a closure made by a lambda node; and no forbidden audit event fires during eval.
 """
 import decimal
+import io
 import itertools
 import sys
 
@@ -222,6 +223,9 @@ def run_program(res, text, names, argdesc):
     out = None
     parser()            # constructed (tables generated) before the audit monitor is armed
     _armed[0] = True
+    so, se = sys.stdout, sys.stderr
+    cap_o, cap_e = io.StringIO(), io.StringIO()
+    sys.stdout, sys.stderr = cap_o, cap_e
     try:
         with opwrap.traced(conf):
             out = parser().eval(text, names, max_ops_evaluated=300)
@@ -229,6 +233,10 @@ def run_program(res, text, names, argdesc):
         out = None
     finally:
         _armed[0] = False
+        sys.stdout, sys.stderr = so, se
+    if cap_o.getvalue() or cap_e.getvalue():
+        res.violation('io:writes-to-stdout-or-stderr', 'evaluation wrote to the process\'s standard streams',
+                      {'program': text, 'args': argdesc, 'expected': 'no output', 'observed': repr((cap_o.getvalue() + cap_e.getvalue())[:200])})
     res.count('evals')
     if _events:
         ev = _events[0]
@@ -318,6 +326,12 @@ def work(task):
                         run_program(res, text, names, [la, second])
         return res
     if kind == 'failing':
+        # programs on whose way an internal failure happens that the library may be tempted to report somewhere: a regex call that
+        # really times out, a fractional index, arithmetic signals
+        bomb = {'s': 'a' * 40 + 'b', 'l': [1, 2, 3]}
+        for text in ('match(s, "(a|aa)+$")', 'match_all(s, "(a|aa)+$")', 'match_groups(s, "((a|aa)+)$", "i")', 'l[1.5]', 'l[0 - 0.5]',
+                     '1 / 3 * 3', '10 ** 99 * 10 ** 99', '0.1 ** 0.5', 'round(2.675, 2)', 'int("12x")', 'float("nan") + 1', 'sorted([1, "a"])'):
+            run_program(res, text, dict(bomb), ['internal failure path'])
         for text in FAILING_SOURCES:
             run_program(res, text, {'x': 1}, ['failing source'])
             run_program(res, text, {}, ['failing source'])
